@@ -46,7 +46,24 @@ def reset_task(chk: Check, repo: Repo, mod: str, cname: str, off_targets: tuple[
         raise AnalysisError(f"{cname}.__init__: reset Task not found")
     kw = {k.arg: k.value for k in tasks[0].keywords}
     tgt = ast.unparse(kw["target"]) if "target" in kw else "?"
-    ok = isinstance(kw.get("wait_before_start"), ast.Name) and kw["wait_before_start"].id == "reset_after" and "repeat_after" not in kw and "restart_after_reconnect" not in kw and tgt in off_targets
+    # the target turns the device off: one of the known forms, or a method of the class that does
+    def turns_off(t: str) -> tuple[bool, bool]:
+        """(turns off, resets the remote value as well)"""
+        if t in off_targets:
+            return True, t == "self.set_off"  # set_off sends a telegram that loops back through the remote value
+        if t.startswith("self.") and t.count(".") == 1:
+            mth = repo.lookup_method(repo.cls(mod, cname), t[5:])
+            if mth is not None:
+                cs = [(call_name(c), [ast.unparse(a) for a in c.args]) for c in calls(mth.node)]
+                via_rv = any(n_.endswith(".update_value") and a_ == ["False"] for n_, a_ in cs)
+                direct = any(n_ == "self._set_internal_state" and a_ == ["False"] for n_, a_ in cs)
+                return (via_rv or direct), via_rv
+        return False, False
+    off_ok, rv_ok = turns_off(tgt)
+    ok = isinstance(kw.get("wait_before_start"), ast.Name) and kw["wait_before_start"].id == "reset_after" and "repeat_after" not in kw and "restart_after_reconnect" not in kw and off_ok
+    # ... and takes the remote value along: a reset that only changes the device's own state leaves the remote value
+    # 'on' - the next 'on' that arrives as a read response is no change for it and is dropped (no 'on', no new timer)
+    chk.ob("timed-reset-resets-the-remote-value-too", ini.site(tasks[0]), rv_ok, f"{cname}: reset target {tgt} " + ("also brings the remote value to 'off'" if rv_ok else "changes the device state only - the remote value keeps 'on' and swallows the next 'on' response"), key=f"reset-rv|{cname}")
     chk.ob("reset-task-waits-reset-after-then-turns-off", ini.site(tasks[0]), ok, f"{cname}: reset Task(target={tgt}, wait_before_start={ast.unparse(kw.get('wait_before_start', ast.Constant(None)))}" + (", one shot)" if "repeat_after" not in kw else f", repeat_after={ast.unparse(kw['repeat_after'])})"), key=f"reset-task|{cname}")
     # created iff reset_after is given; None otherwise
     mf = cfg.must_facts()
